@@ -363,7 +363,7 @@ class Models:
         return ref_iter(items_of(v))
 
     def m_vec__from_elem(self, c, x, n):
-        return RVec([copy_val(x) for _ in range(n)])
+        return RVec([deep_clone(x) for _ in range(n)])
 
     def m_slice__iter(self, c, v):
         return ref_iter(items_of(v))
@@ -1467,7 +1467,7 @@ class Models:
             return RString(v.s)
         if isinstance(v, int):
             return RString(str(v))
-        return RString(('to_string', v))
+        return RString(self.display(v))
 
     def m_String__new(self, c):
         return RString('')
@@ -1498,11 +1498,29 @@ class Models:
     def m_str__trim(self, c, s):
         return deref(s).strip()
 
+    def _pat_match_char(self, p, ch):
+        p = deref(p)
+        if isinstance(p, str):
+            return None
+        if isinstance(p, int):
+            return ch == chr(p)
+        if isinstance(p, (RVec, SliceView)):
+            return any(ch == chr(x) for x in p.items)
+        if isinstance(p, (Closure, FnItem)):
+            return self.ctx.branch(self.call_closure(p, ord(ch)))
+        raise Unsupported('string pattern ' + type(p).__name__)
+
     def m_str__starts_with(self, c, s, p):
-        return deref(s).startswith(p if isinstance(p, str) else chr(p))
+        s = deref(s)
+        if isinstance(deref(p), str):
+            return s.startswith(deref(p))
+        return bool(s) and self._pat_match_char(p, s[0])
 
     def m_str__ends_with(self, c, s, p):
-        return deref(s).endswith(p if isinstance(p, str) else chr(p))
+        s = deref(s)
+        if isinstance(deref(p), str):
+            return s.endswith(deref(p))
+        return bool(s) and self._pat_match_char(p, s[-1])
 
     def m_str__strip_prefix(self, c, s, p):
         s = deref(s)
@@ -1553,6 +1571,11 @@ class Models:
         s = deref(s)
         return Some(s[:len(s) - len(p)]) if s.endswith(p) else NONE()
 
+    def m_FromStr__from_str(self, c, s):
+        from .resolve import parse_callee as _pc
+        ty = norm_ty(_pc(c).self_ty)
+        return self.m_str__parse(f'core::str::<impl str>::parse::<{ty}>', s)
+
     def m_str__parse(self, c, s):
         s = deref(s)
         k = c.rindex('::parse::<')
@@ -1572,7 +1595,7 @@ class Models:
                 if lo <= n <= hi:
                     return Ok(n)
             return Err(Opaque('ParseIntError', s))
-        if ty == 'String':
+        if ty in ('String', 'std::string::String'):
             return Ok(RString(s))
         # user type: <T as FromStr>::from_str
         return self.it.call(f'<{ty} as FromStr>::from_str', [s], None)
@@ -1658,6 +1681,14 @@ class Models:
             return self.display_f64(v)
         if isinstance(v, Enum) and v.ty.endswith('ObjSense'):
             return {'Min': 'MIN', 'Max': 'MAX'}.get(v.vname, v.vname)
+        if isinstance(v, (Agg, Enum)) and v.ty:
+            # a local Display impl: run it against a string buffer standing in for the Formatter
+            from .resolve import parse_callee, local_trait_candidates
+            callee = f'<{v.ty} as std::fmt::Display>::fmt'
+            if local_trait_candidates(self.it, parse_callee(callee), v.ty, 2):
+                buf = RString('')
+                self.it.call(callee, [ref_to(v), ref_to(buf)], None)
+                return buf.s
         if isinstance(v, Agg) and len(v.f) == 1:
             return self.display(v.f[0])
         return '<?>'
@@ -1683,7 +1714,10 @@ class Models:
     m_hint__must_use = m_must_use
 
     def m_Argument__new_display(self, c, x):
-        return Opaque('fmtarg', deref(x))
+        v = deref(x)
+        if c.rstrip('>').endswith('<char') or c.endswith('::<&char>'):
+            v = chr(deref(v))
+        return Opaque('fmtarg', v)
 
     m_Argument__new_debug = m_Argument__new_lower_exp = m_Argument__new_display
 
